@@ -230,6 +230,7 @@ def generate(seed, run, tier="quick", overrides=None):
         "rename.sc": prng.choice([1, 3]), "rename.gen": prng.choice([1, 3]),
         "rename.permute": prng.choice([1, 3]), "rename.subs": prng.choice([1, 3, 5]),
         "rename.minimize": prng.choice([0, 1, 2]), "rename.copy": prng.choice([0, 1]),
+        "rename.term": prng.choice([0, 1, 2]),
         "misc": 0 if faultfree else prng.choice([0, 1]),
     }
     kinds = [k for k, w in weights.items() for _ in range(w)]
@@ -271,8 +272,8 @@ def generate(seed, run, tier="quick", overrides=None):
             st = {"op": "reg.generic", "kw": kw}
         elif k == "reg.bad":
             st = {"op": "reg.bad", "variant": rng.choice(
-                ["len_mismatch", "bad_letter", "bad_letter_late", "bad_key", "bad_spin",
-                 "bad_generic_space"]), "pick": rng.randrange(1 << 20)}
+                ["len_mismatch", "bad_letter", "bad_letter_late", "bad_letter_late_plain",
+                 "bad_key", "bad_spin", "bad_generic_space"]), "pick": rng.randrange(1 << 20)}
         elif k == "lib":
             which = rng.choice(["psi", "psi", "h1", "operator", "energy", "expand_itmd",
                                 "expand_itmd", "import", "norm_factor", "amplitude"])
@@ -288,6 +289,11 @@ def generate(seed, run, tier="quick", overrides=None):
                 st["pick"] = rng.randrange(1 << 20)
             elif k == "rename.copy":
                 st["how"] = rng.choice(["sc", "gen"])
+            elif k == "rename.term":
+                st["how"] = rng.choice(["permute", "permute", "sc", "gen"])
+                st["pick"] = rng.randrange(1 << 20)
+                st["perms"] = [[rng.randrange(1 << 20), rng.randrange(1 << 20)]
+                               for _ in range(rng.choice([1, 2, 3]))]
         elif k == "misc":
             st = rng.choice([{"op": "sympy.clear_cache"},
                              {"op": "dummy.skew", "n": rng.choice([1, 7, 200, 10 ** 5])},
@@ -664,6 +670,90 @@ class C08Session:
                       f"of {sl['expr']} gave {got}, sequential transpositions give {want}")
         return {"permute": str(got)}
 
+    def _container(self, sl):
+        """long-lived Expr container + Term objects of a slot (S9: positional views with
+        their own caches); rebuilt only when the slot's expression changes"""
+        from adcgen import Expr
+        if sl.get("cont_of") is not sl["expr"]:
+            sl["cont"] = Expr(sl["expr"], target_idx=list(sl["targets"]))
+            sl["terms"] = sl["cont"].terms
+            sl["cont_of"] = sl["expr"]
+        return sl["cont"], sl["terms"]
+
+    def op_rename_term(self, st):
+        """Term-level renamings on long-lived Term objects; results handed out earlier may be
+        modified in place by the caller without affecting later requests"""
+        sl = self._slot(st)
+        if sl is None:
+            return {"skip": True}
+        cont, terms = self._container(sl)
+        if cont.sympy != sl["expr"]:
+            self.viol("rename", "c-alias", "a long-lived Expr container changed although "
+                      "only Term-level (non in-place) operations were applied to it")
+            return {}
+        t = terms[st["pick"] % len(terms)]
+        tsym = t.sympy
+        idx = self.canon_indices(tsym)
+        byk = {}
+        for s_ in idx:
+            byk.setdefault(self.key_of(s_), []).append(s_)
+        classes = [v for _, v in sorted(byk.items()) if len(v) >= 2]
+        out = {}
+        how = st["how"]
+        if how == "permute" and classes:
+            perms = []
+            for a, b in st["perms"]:
+                cl = classes[a % len(classes)]
+                p = cl[b % len(cl)]
+                q = cl[(b // len(cl) + 1 + b) % len(cl)]
+                if p is q:
+                    q = cl[(cl.index(p) + 1) % len(cl)]
+                perms.append((p, q))
+            want = tsym
+            for p, q in perms:
+                want = want.xreplace({p: q, q: p})
+            for attempt in range(2 + st["pick"] % 2):
+                got = t.permute(*perms)
+                gs_ = got.sympy
+                if gs_ != want and not self.same_value_all_indices(gs_, want):
+                    self.viol("rename", "b-permute", f"Term.permute"
+                              f"{[(str(p), str(q)) for p, q in perms]} of {tsym} "
+                              f"(request #{attempt + 1} on the same Term object) gave {gs_}, "
+                              f"sequential transpositions give {want}")
+                    break
+                # the caller keeps working with the returned expression (in place)
+                mut = (st["pick"] // 3 + attempt) % 3
+                if mut == 0:
+                    got.permute(perms[0])
+                elif mut == 1 and hasattr(got, "substitute_contracted"):
+                    got.substitute_contracted()
+                elif hasattr(got, "expand"):
+                    got *= 2
+            out["permute"] = str(want)
+        elif how in ("sc", "gen"):
+            first = None
+            for attempt in range(2):
+                r = t.substitute_contracted() if how == "sc" else \
+                    t.substitute_with_generic(return_sympy=False)
+                rs = r.sympy
+                single = {"expr": tsym, "targets": sl["targets"], "fp": None}
+                self.check_targets_untouched(tsym, rs, sl["targets"], f"Term.{how}")
+                if how == "sc":
+                    self.check_lowest(rs, sl["targets"], "Term.substitute_contracted")
+                    if first is not None and rs != first:
+                        self.viol("rename", "c-alias", f"Term.substitute_contracted of {tsym} "
+                                  f"gave {first} and then {rs} on the same Term object")
+                    first = rs
+                self._compare_value(single, rs, f"Term.{how} (request #{attempt + 1})")
+                r *= 3  # in-place use of the result by the caller
+                if hasattr(r, "substitute_with_generic"):
+                    r.substitute_with_generic()
+            out[how] = str(first)
+        if t.sympy != tsym or cont.sympy != sl["expr"]:
+            self.viol("rename", "c-alias", f"Term-level {how} changed the term / the container "
+                      f"it belongs to: {tsym} -> {t.sympy}")
+        return out
+
     def _resolve_map(self, m, sl):
         idx = self.canon_indices(sl["expr"])
         if not idx:
@@ -845,10 +935,12 @@ class C08Session:
     def op_reg_get(self, st):
         from adcgen.indices import get_symbols
         names, spins = st["names"], st["spins"]
-        for n, s in zip(names, spins):
-            sp = _space(n)
-            if n in self.ind._generic_indices[sp][s]:
-                self.probes["pooled_explicit_first"] += 1
+        try:
+            for n, s in zip(names, spins):
+                if n in self.ind._generic_indices[_space(n)][s]:
+                    self.probes["pooled_explicit_first"] += 1
+        except Exception:  # noqa: BLE001 - white-box probe only
+            pass
         if st["via"] == "get_symbols":
             sp_arg = None if not any(spins) else "".join(spins) if all(spins) else None
             if any(spins) and not all(spins):
@@ -880,6 +972,8 @@ class C08Session:
                 self.ind.get_indices(["x" + str(pick % 4)])
             elif v == "bad_letter_late":
                 self.ind.get_indices(["k" + str(3 + pick % 3), "z", "c" + str(3 + pick % 3)])
+            elif v == "bad_letter_late_plain":
+                self.ind.get_indices([["n", "o"], ["h", "g1"], ["o2", "w"]][pick % 3] + ["?"])
             elif v == "bad_key":
                 self.ind.get_generic_indices(occ_a_b=1 + pick % 2)
             elif v == "bad_spin":
@@ -891,6 +985,8 @@ class C08Session:
             allowed = set()
             if v == "bad_letter_late":
                 allowed = {"k" + str(3 + pick % 3)}
+            if v == "bad_letter_late_plain":
+                allowed = set([["n", "o"], ["h", "g1"], ["o2", "w"]][pick % 3])
             for k, d in self.model.known.items():
                 new = set(d) - set(before[k])
                 if new - allowed:
